@@ -697,4 +697,42 @@ theorem redb_err_unchanged (v : Hdr → Hdr → Bool) (t : Tables) (op : Op)
   | mark k => exact wtx _ _ h
   | updMeta k c => exact wtx _ _ h
   | _ => rfl
+
+/-! ### `write_tx` as written realises the all-or-nothing summary -/
+
+theorem writeTxL_eq_writeTx {α : Type} (dirty : Tables → Tables) (f : Tables → Except Err (Tables × α)) (t : Tables) :
+    RedbStore.writeTxL dirty f t = RedbStore.writeTx f t := by
+  unfold RedbStore.writeTxL RedbStore.writeTx RedbStore.WriteTxn.run RedbStore.beginWrite
+  cases hf : f t with
+  | error e => simp [RedbStore.WriteTxn.abort]
+  | ok p => obtain ⟨w, a⟩ := p; simp [RedbStore.WriteTxn.commit]
+
+theorem stepL_eq_step (dirty : Tables → Tables) (v : Hdr → Hdr → Bool) (t : Tables) (op : Op) :
+    RedbStore.stepL dirty v t op = RedbStore.step v t op := by
+  cases op <;> simp only [RedbStore.stepL, RedbStore.step, RedbStore.insertL, RedbStore.insert, writeTxL_eq_writeTx]
+
+/-- C20 for `write_tx` as written: a failed call leaves the committed tables unchanged, whatever
+    the failing closure had already written to the transaction (`dirty`).  Follows from the
+    branch `if res.is_ok() { commit } else { abort }` and the redb contract (`WriteTxn.abort`). -/
+theorem redb_errL_unchanged (dirty : Tables → Tables) (v : Hdr → Hdr → Bool) (t : Tables) (op : Op)
+    (h : (RedbStore.stepL dirty v t op).2.isErr = true) : (RedbStore.stepL dirty v t op).1 = t := by
+  have wtx : ∀ {α : Type} (f : Tables → Except Err (Tables × α)) (g : α → Out),
+      (toRes (RedbStore.writeTxL dirty f t).2 g).isErr = true → (RedbStore.writeTxL dirty f t).1 = t := by
+    intro α f g
+    unfold RedbStore.writeTxL RedbStore.WriteTxn.run RedbStore.beginWrite
+    cases f t with
+    | error e => intro _; rfl
+    | ok p => intro hh; simp [toRes, Res.isErr] at hh
+  cases op with
+  | insert batch =>
+    simp only [RedbStore.stepL] at h ⊢
+    unfold RedbStore.insertL at h ⊢
+    cases hx : tryIntoVerified v batch with
+    | error e => rfl
+    | ok hs => rw [hx] at h; exact wtx _ _ h
+  | remove k => exact wtx _ _ h
+  | mark k => exact wtx _ _ h
+  | updMeta k c => exact wtx _ _ h
+  | _ => rfl
+
 end Lumina.Proofs.Store
